@@ -27,7 +27,7 @@ def install_stubs(I, repo, ctxd):
         return o
 
     def mk_dh(I_, fi, a, kw, bc):
-        o = AObj(dh_ci, {"is_response_requested": AInt([I_.atom_form(("dh.resp", 0))], isbool=True), "__pdu__": "DH", "sap_identifier": None})
+        o = AObj(dh_ci, {"is_response_requested": AInt([I_.atom_form(("dh.resp", 0))], isbool=True), "__pdu__": "DH", "sap_identifier": sap_choice(I_, repo)})
         ctxd["made"].append(o)
         return o
 
@@ -52,7 +52,7 @@ def install_stubs(I, repo, ctxd):
         ci = repo.cls(mod, cls)
 
         def mk_rate(I_, fi, a, kw, bc, ci=ci):
-            o = AObj(ci, {"data": b"", "__pdu__": "DATA", "__last__": I_.st.choose("block:is-last")})
+            o = AObj(ci, {"data": payload_octets(I_, "rx"), "__pdu__": "DATA", "__last__": I_.st.choose("block:is-last")})
             ctxd["made"].append(o)
             return o
 
@@ -60,8 +60,22 @@ def install_stubs(I, repo, ctxd):
         tci_ = repo.cls(mod, cls.replace("Data", "DataTypes"))
         I.summaries[repo.find_method(tci_, "resolve").qualname] = lambda I_, fi, a, kw, bc: AOpq("resolved block type", notnone=True)
         I.summaries[repo.find_method(ci, "is_last_block").qualname] = lambda I_, fi, a, kw, bc: a[0].attrs["__last__"]
+    # the compressed UDP/IPv4 header decoder that end_data_transmission runs over the collected user data is NOT a stub: the real
+    # from_bits is interpreted on symbolic octets (it is part of "processing never fails"); only its __repr__ is
     udp = repo.cls("etsi.layer3.pdu.udp_ipv4_compressed_header", "UDPIPv4CompressedHeader")
-    I.summaries[repo.find_method(udp, "from_bits").qualname] = lambda *a: AOpq("udp header", notnone=True)
+    if repo.find_method(udp, "__repr__") is not None:
+        I.summaries[repo.find_method(udp, "__repr__").qualname] = lambda *a: "UDP"
+
+
+def sap_choice(I_, repo):
+    """the service access point of a data header: UDP/IP header compression (the tracker then decodes the user data) or another one"""
+    saps = repo.enum_members(repo.cls("etsi.layer2.elements.sap_identifier", "SAPIdentifier"))
+    return saps["UDP_IP_compression"] if I_.st.choose("header:sap=udp/ip compression") else saps["ShortData"]
+
+
+def payload_octets(I_, tag):
+    """user data of one block: 8 octets (an unconfirmed rate 1/2 last block) of symbolic content"""
+    return ABits([I_.atom_form(("payload", tag, i)) for i in range(64)], "bytes")
 
 
 def make_burst(I, repo, kind):
@@ -145,7 +159,7 @@ def run(ctx):
                     if hkind == "FLC":
                         hdr = AObj(flc_ci, {"full_link_control_opcode": flcos["GroupVoiceChannelUser"], "source_address": 1, "group_address": 2, "target_address": 3, "__pdu__": "FLC"})
                     elif hkind == "DH":
-                        hdr = AObj(dh_ci, {"is_response_requested": False, "__pdu__": "DH", "sap_identifier": None})
+                        hdr = AObj(dh_ci, {"is_response_requested": False, "__pdu__": "DH", "sap_identifier": sap_choice(I, repo)})
                     t.attrs["header"] = hdr
                     pre_blocks = ["<earlier block>"] if tname != "Idle" else []
                     t.attrs["blocks"] = pre_blocks
